@@ -95,17 +95,39 @@ func checkNaNHygiene(c *RuleCtx) {
 		}
 		return true
 	})
-	// decay factors of unguarded counters: C *= D anywhere in the module
+	// decay factors: C *= D anywhere in the module. A decay reaches the stored counter whether or not the
+	// counter's term is guarded or weighted: an infinite or >1 factor drives the counter to +Inf (above its cap),
+	// where comparisons guarding the term are true and Inf * 0 is NaN
+	decays := map[string]string{}
 	for _, s := range p.AllStores() {
-		if !unguardedCounters[s.Field] || (s.Kind != "opassign" && s.Kind != "elem-opassign") || s.Tok != token.MUL_ASSIGN || s.RHS == nil {
+		if (s.Kind != "opassign" && s.Kind != "elem-opassign") || s.Tok != token.MUL_ASSIGN || s.RHS == nil {
+			continue
+		}
+		if _, isCtr := map[string]bool{}[s.Field]; isCtr {
+			continue
+		}
+		if !strings.HasPrefix(s.Field, "topicStats.") && !strings.HasPrefix(s.Field, "peerStats.") {
 			continue
 		}
 		if d, ok := isParamField(p.R(s.Fn).Val(s.RHS)); ok {
-			need[d] = "decay factor of " + s.Field + " (multiplied in at " + p.Pos(s.Node) + "), whose score term is added without a guard on the counter"
+			decays[d] = "decay factor of " + s.Field + " (multiplied in at " + p.Pos(s.Node) + ")"
+			if _, have := need[d]; !have {
+				need[d] = decays[d]
+			}
 		}
 	}
-	if len(need) < 8 {
-		c.Undecided("R10.8", f.Name, "parameter inventory", f.Decl, "fewer float parameters reach the score than known ("+itoa(len(need))+")")
+	_ = unguardedCounters
+	// every other float64 parameter: thresholds and caps take part in comparisons and differences whose result is
+	// multiplied by a weight that may be zero (Inf * 0), so a non-finite value is never harmless
+	for _, owner := range []string{"TopicScoreParams", "PeerScoreParams"} {
+		for _, fld := range p.StructFloatFields(owner) {
+			if _, have := need[fld]; !have {
+				need[fld] = "float parameter of " + owner + " (thresholds and caps are compared with and subtracted from counters; a non-finite value reaches the score as Inf * 0 even when the component is disabled)"
+			}
+		}
+	}
+	if len(need) < 20 || len(decays) < 5 {
+		c.Undecided("R10.8", f.Name, "parameter inventory", f.Decl, "fewer float parameters / decay factors than known ("+itoa(len(need))+"/"+itoa(len(decays))+")")
 	}
 	var names []string
 	for n := range need {
@@ -151,6 +173,125 @@ func checkNaNHygiene(c *RuleCtx) {
 		if n == 0 {
 			c.Undecided("R10.8", vf.Name, fld+" accepting return", vf.Decl, "no `return nil`")
 		}
+		if why, isDecay := decays[fld]; isDecay {
+			le0 := AtomCmp(fld+" <= 0", isF, "<=", isZero)
+			ge1 := AtomCmp(fld+" >= 1", isF, ">=", func(v *V) bool {
+				return v != nil && (v.Kind == "lit" || v.Kind == "const") && (v.Name == "1" || v.Name == "1.0")
+			})
+			k := 0
+			returnsIn(vf, func(r *ast.ReturnStmt) {
+				if len(r.Results) != 1 || !isNilV(p.R(vf).Val(r.Results[0])) {
+					return
+				}
+				k++
+				ok1, why1 := p.DomAny(vf, r, AtomWant{le0, false}, AtomWant{zero, true})
+				ok2, why2 := p.DomAny(vf, r, AtomWant{ge1, false}, AtomWant{zero, true})
+				suffix := ""
+				if k > 1 {
+					suffix = "#" + itoa(k)
+				}
+				w := why1
+				if ok1 {
+					w = why2
+				}
+				c.Check(ok1 && ok2, "R10.8", vf.Name, fld+" accepted only if inside (0,1) or left at 0"+suffix, r, w, "parameters can be accepted with "+fld+" outside (0,1) (it is the "+why+"): a factor >= 1 lets the counter grow past its cap to +Inf, where the disabled term is Inf * 0 = NaN: "+w)
+			})
+		}
 	}
-	c.Min["R10.8"] = 10
+	c.Min["R10.8"] = 30
+}
+
+// R10.9 the colocation term is a sum over the peer's address list (ipColocationFactor ranges over
+// pstats.ips and adds one squared surplus per element), so the list must not repeat an address: a peer
+// with two connections from one address would be charged twice for it. Decided on the producer: what
+// getIPs returns is either de-duplicated as a whole (slices.Compact of a sorted slice) or built by appends
+// that are each behind a not-yet-seen test on the appended value.
+func checkIPListDistinct(c *RuleCtx) {
+	p := c.P
+	f := c.MustFn("R10.9", "(*peerScore).getIPs")
+	if f == nil {
+		return
+	}
+	g := p.Graph(f)
+	isCall := func(v *V, names ...string) bool {
+		if v == nil || v.Kind != "call" {
+			return false
+		}
+		for _, n := range names {
+			if v.Name == n || strings.HasPrefix(v.Name, n+"[") {
+				return true
+			}
+		}
+		return false
+	}
+	sorts := func(n ast.Node) bool {
+		for _, cs := range p.CallsIn(f, n, false) {
+			if cs.Name == "slices.Sort" || strings.HasPrefix(cs.Name, "slices.Sort[") || cs.Name == "sort.Strings" {
+				return true
+			}
+		}
+		return false
+	}
+	n := 0
+	returnsIn(f, func(r *ast.ReturnStmt) {
+		if len(r.Results) != 1 {
+			return
+		}
+		v := p.R(f).Val(r.Results[0])
+		if isNilV(v) {
+			return
+		}
+		n++
+		suffix := ""
+		if n > 1 {
+			suffix = "#" + itoa(n)
+		}
+		pt, _ := g.Locate(r)
+		if isCall(v, "slices.Compact") {
+			ok := g.DominatedByNode(pt, sorts)
+			c.Check(ok, "R10.9", f.Name, "returned address list has no repeated element"+suffix, r, "slices.Compact of a slice sorted on every path", "slices.Compact only removes adjacent duplicates and the slice is not sorted on every path")
+			return
+		}
+		// appends behind a not-seen test
+		all, k := true, 0
+		why := ""
+		for _, ap := range p.localAppends(f) {
+			as := ap.Stmt
+			if as == nil || len(as.Rhs) != 1 {
+				continue
+			}
+			ce, isC := unparen(as.Rhs[0]).(*ast.CallExpr)
+			if !isC || len(ce.Args) < 2 {
+				continue
+			}
+			if t := f.Info().TypeOf(as.Lhs[0]); t == nil || t.String() != "[]string" {
+				continue
+			}
+			k++
+			for _, a := range ce.Args[1:] {
+				av := p.R(f).Val(a)
+				seen := AtomBool("value already in the list", func(x *V) bool {
+					return (x.Kind == "lookupok" && x.Args[1].Equal(av)) || (isCall(x, "slices.Contains") && len(x.Args) == 2 && x.Args[1].Equal(av))
+				})
+				if ok, _ := p.DomAny(f, as, AtomWant{seen, false}); !ok {
+					all = false
+					why = "the append at " + p.Pos(as) + " is not behind a not-yet-seen test on the appended address"
+				}
+			}
+		}
+		if k == 0 {
+			all = false
+			why = "no append to the address list found"
+		}
+		c.Check(all, "R10.9", f.Name, "returned address list has no repeated element"+suffix, r, "every append is behind a not-yet-seen test", "the list of addresses a peer is charged for can contain the same address more than once (one entry per connection): ipColocationFactor adds the squared surplus once per element, so a peer with two connections from one address is charged twice; "+why)
+	})
+	if n == 0 {
+		c.Undecided("R10.9", f.Name, "returned address list", f.Decl, "no non-nil return")
+	}
+	// the consumer really is a per-element sum
+	if cf := c.MustFn("R10.9", "(*peerScore).ipColocationFactor"); cf != nil {
+		rs := p.RangesOver(cf, func(v *V) bool { return v.IsField("peerStats.ips") })
+		c.Check(len(rs) == 1, "R10.9", cf.Name, "colocation term sums over the peer's address list", cf.Decl, "one loop over pstats.ips", "ipColocationFactor no longer ranges over pstats.ips (rule premise changed)")
+	}
+	c.Min["R10.9"] = 2
 }
